@@ -70,6 +70,13 @@ def activateW (w : Nat × Nat) (st : SState) (s : Sender) (frontierHeight : Nat)
       if sp.activated then none
       else some (⟨id, true, frontierHeight + Gen.SporkMinHeightDelay⟩ :: st.filter (·.id ≠ id))
 
+/-- chain/genesis/account_block.go genesisSporkContractConfig: a spork of GenesisConfig.SporkConfig is written into the
+    spork contract's storage exactly as the configuration has it - `Activated` and `EnforcementHeight` are NOT derived
+    from a height (a network that starts with a feature switched on defines the spork with Activated = true and
+    EnforcementHeight = 0). The contract state of the genesis momentum is the fold of this over the configured list. -/
+def defineGenesis (st : SState) (id : Nat) (activated : Bool) (enf : Nat) : SState :=
+  ⟨id, activated, enf⟩ :: st.filter (·.id ≠ id)
+
 /-- momentumStore.IsSporkActive for the store whose frontier height is `h` -/
 def isActive (st : SState) (h : Nat) (id : Nat) : Bool :=
   h != 1 && st.any (fun sp => sp.activated && sp.enf ≤ h && sp.id = id)
